@@ -7,6 +7,7 @@ import (
 	"net/http/httptest"
 	"net/url"
 	"reflect"
+	"strings"
 	"sync"
 	"testing"
 
@@ -244,10 +245,21 @@ func propRouter(t *rapid.T) {
 	o.Caching = true
 	o.CacheCap = rapid.IntRange(1, ev.Pick(4, 8)).Draw(t, "cap")
 	o.Via, o.Order = model.GenVia(t), model.GenOrder(t)
+	o.CacheStyle = model.GenCacheStyle(t)
 	tc := model.TableCfg{MaxRoutes: 6, Gen: model.GenCfg{MaxSegs: 3}, Fallback: o.Fallback}
 	tb.Routes = model.GenRoutes(t, tc, o.Strict)
 	if len(tb.Routes) == 0 {
 		t.Skip("empty table")
+	}
+	if rapid.IntRange(0, 3).Draw(t, "longPrefix") == 0 {
+		// every route below one long first segment: cache keys of 130-600 bytes are keys like any other
+		long := strings.Repeat(rapid.StringMatching(`[a-c]{10}`).Draw(t, "longUnit"), rapid.IntRange(13, 60).Draw(t, "longReps"))
+		for i := range tb.Routes {
+			if d := &tb.Routes[i]; d.P.Raw == "" {
+				d.P.Segs = append([]model.Part{{Pre: long}}, d.P.Segs...)
+			}
+		}
+		ev.Class("table:all-routes-below-a-long-first-segment")
 	}
 	var pool []req
 	np := rapid.IntRange(2, 8).Draw(t, "npool")
@@ -350,7 +362,9 @@ func propRaceOps(t *rapid.T) {
 			t.Fatalf("round %d: Len()=%d, list %v, index size %d, capacity %d (plans %v)", round, n, got, c.VerifMapLen(), capacity, plans)
 		}
 	}
-	ev.NonTrivial(fmt.Sprint(capacity, plans), func() string { return fmt.Sprintf("capacity %d, %d goroutines, plans %v, %d rounds", capacity, ng, plans, rounds) })
+	ev.NonTrivial(fmt.Sprint(capacity, plans), func() string {
+		return fmt.Sprintf("capacity %d, %d goroutines, plans %v, %d rounds", capacity, ng, plans, rounds)
+	})
 }
 
 func TestRaceOps(t *testing.T) { rapid.Check(t, propRaceOps) }
